@@ -98,7 +98,7 @@ struct FrameModelListener : Listener {
                 std::string d = firstDiff(frameText(want), frameText(got));
                 if (!d.empty()) { fail("frame " + std::to_string(f) + " changed beyond the new column: " + d, i, op); return; }
             }
-        } else if (k == "reload" || k == "gapfill" || k == "new" || k == "load") {
+        } else if (k == "reload" || k == "gapfill" || k == "new" || k == "load" || k == "resample") {
             // resynchronise (their effect on frames is checked by other properties)
         } else {
             // any other operation (parameters, locks, rates, print, save, caller-side mutations) must not touch stored frames
